@@ -576,6 +576,47 @@ def unroll_displays(stmts):
     return out
 
 
+def detuple(stmts):
+    """tmp = (e1, e2) followed (in the same block) by  a, b = tmp  with tmp used nowhere else  ->  a = e1; b = e2 at the place
+    of the unpacking (the shape an inlined helper that returns a pair leaves behind)."""
+    stmts = list(stmts)
+    out = []
+    i = 0
+    while i < len(stmts):
+        s = stmts[i]
+        if isinstance(s, (ast.If, ast.For, ast.While, ast.Try, ast.With)):
+            s = copy.copy(s)
+            for f in ("body", "orelse", "finalbody"):
+                if getattr(s, f, None):
+                    setattr(s, f, detuple(getattr(s, f)))
+            out.append(s)
+            i += 1
+            continue
+        if isinstance(s, ast.Assign) and len(s.targets) == 1 and isinstance(s.targets[0], ast.Name) and isinstance(s.value, ast.Tuple) \
+                and s.targets[0].id.startswith("__h"):
+            tmp = s.targets[0].id
+            uses = [(j, x) for j, st_ in enumerate(stmts) for x in ast.walk(st_) if isinstance(x, ast.Name) and x.id == tmp]
+            j = next((j for j in range(i + 1, len(stmts)) if isinstance(stmts[j], ast.Assign) and isinstance(stmts[j].value, ast.Name)
+                      and stmts[j].value.id == tmp and len(stmts[j].targets) == 1 and isinstance(stmts[j].targets[0], ast.Tuple)
+                      and len(stmts[j].targets[0].elts) == len(s.value.elts)), None)
+            between_ok = j is not None and all(not isinstance(stmts[k], (ast.If, ast.For, ast.While)) for k in range(i + 1, j))
+            if j is not None and len(uses) == 2 and between_ok and _sequential_ok(stmts[j].targets[0].elts, s.value.elts):
+                # keep the statements in between where they are; the element expressions are evaluated where the pair was built
+                temps = []
+                for n_, e in enumerate(s.value.elts):
+                    tn = "%s_%d" % (tmp, n_)
+                    temps.append(tn)
+                    out.append(ast.fix_missing_locations(ast.copy_location(ast.Assign(targets=[ast.Name(id=tn, ctx=ast.Store())], value=e, lineno=s.lineno), s)))
+                out.extend(stmts[i + 1:j])
+                for t_, tn in zip(stmts[j].targets[0].elts, temps):
+                    out.append(ast.fix_missing_locations(ast.copy_location(ast.Assign(targets=[t_], value=ast.Name(id=tn, ctx=ast.Load()), lineno=s.lineno), stmts[j])))
+                i = j + 1
+                continue
+        out.append(s)
+        i += 1
+    return out
+
+
 def split_assignments(stmts):
     """a = self.b = value -> tmp-free chain split; t1, t2 = v1, v2 -> t1 = v1; t2 = v2 (when no target is read by a later value).
     Applied to encoders and decoders alike, recursively."""
@@ -606,6 +647,7 @@ def inlined_body(prog, cls, fn):
     inl.owner_stack.append(fn.cls)
     first = list(fn.node.body) if fn.name == "decode" else split_assignments(list(fn.node.body))
     body = inl.body(comps_to_loops(unroll_displays(fuse_lists(first))))
+    body = detuple(body)
     if fn.name == "decode":
         body = normalize(body)
     for s in body:
